@@ -225,13 +225,19 @@ def add_coordinates(job, g, profile, force_res=None):
             lines.append((resid, resname, "CG") + tuple(xyz))
             supplied_centres[f"{inst}:{resid}"] = xyz
     job["coord_text"] = write_gro_text("verif input", lines, gro["box"][:3])
-    if kind == "mol" and g.random() < profile.get("p_pre_call", 0.0):
+    if kind == "mol" and lines and g.random() < profile.get("p_pdb", 0.0) and all(len(l[2]) <= 4 and len(l[1]) <= 3 for l in lines):
+        from oracles.final_state import write_pdb_text
+        job["coord_text"] = write_pdb_text(lines, gro["box"][:3])
+        job["coord_ext"] = "pdb"
+    if kind == "mol" and job.get("coord_ext") != "pdb" and g.random() < profile.get("p_pre_call", 0.0):
         # the complete earlier build, to be read from the same path by an earlier call in the same process
         full = [(at["resid"], at["resname"], at["atomname"]) + tuple(at["xyz"]) for at in gro["atoms"]]
         if len(full) != len(lines):
             job["pre_coord_text"] = write_gro_text("verif earlier input", full, gro["box"][:3])
     job["coord_kind"] = kind
     job["coord_box"] = gro["box"][:3]
+    if job.get("coord_ext") == "pdb":
+        job["coord_box"] = [float("%.3f" % (10 * b)) / 10 for b in gro["box"][:3]]     # CRYST1 keeps 3 decimals in A
     job["coord_mode"] = mode
     job["supplied_atoms"] = supplied_atoms
     job["supplied_centres"] = supplied_centres
